@@ -17,6 +17,10 @@ pub struct LockstepState {
     pub term: u64,
     pub majority: Vec<NodeId>,
     pub rounds: u64,
+    /// granted pre-votes that were already in flight when the lock-step phase began
+    pub old_grants: Vec<MsgKey>,
+    /// one of them was delivered during the phase (history precondition of a known finding)
+    pub stale_grant_delivered: bool,
 }
 
 fn is_vote_req(t: MessageType) -> bool {
@@ -388,6 +392,11 @@ impl World {
     }
 
     /// C03.leader_has_committed: leader n holds every CL[i] (i >= from) committed under an earlier term.
+    pub fn check_leader_complete_pub(&mut self, n: NodeId) -> VResult<()> {
+        let from = self.ghost.base + 1;
+        self.check_leader_complete(n, from)
+    }
+
     fn check_leader_complete(&mut self, n: NodeId, from: u64) -> VResult<()> {
         let node = &self.nodes[&n];
         let t = node.obs.term;
@@ -688,6 +697,7 @@ impl World {
         for e in rd.committed_entries() {
             self.check_handoff_entry(n, e, &mut cursor, limit)?;
         }
+        self.uncommitted_handed_out(n, cursor);
         let node = self.nodes.get_mut(&n).unwrap();
         node.handoff = cursor;
         if let Some(hs) = rd.hs() {
@@ -764,6 +774,7 @@ impl World {
         for e in light.committed_entries() {
             self.check_handoff_entry(n, e, &mut cursor, limit)?;
         }
+        self.uncommitted_handed_out(n, cursor);
         let node = self.nodes.get_mut(&n).unwrap();
         node.handoff = cursor;
         if let Some(c) = light.commit_index() {
